@@ -115,6 +115,60 @@ pub fn execute(ctx: &mut Ctx, lines: &[String]) -> Vec<String> {
                 }
                 hex(&got)
             }
+            // C13/C20: one record through a real SyslogWriter (UDP loopback): PRI value, header layout, message
+            ["SYSLOGLINE", hdr, fac, lvl, msg] => {
+                use flexi_logger::writers::{LogWriter, SyslogConnection, SyslogFacility as F, SyslogLineHeader, SyslogWriter};
+                ctx.report.count(&format!("op.SYSLOGLINE.{hdr}"));
+                ctx.report.nontrivial_case(lines);
+                let facs = [F::Kernel, F::UserLevel, F::MailSystem, F::SystemDaemons, F::Authorization, F::SyslogD, F::LinePrinter, F::News, F::Uucp, F::Clock, F::Authorization2, F::Ftp,
+                    F::Ntp, F::LogAudit, F::LogAlert, F::Clock2, F::LocalUse0, F::LocalUse1, F::LocalUse2, F::LocalUse3, F::LocalUse4, F::LocalUse5, F::LocalUse6, F::LocalUse7];
+                let fac: usize = fac.parse().unwrap();
+                let lvl: usize = lvl.parse().unwrap();
+                let text = crate::util::unhexs(msg).unwrap();
+                let server = std::net::UdpSocket::bind("127.0.0.1:0").unwrap();
+                server.set_read_timeout(Some(std::time::Duration::from_secs(5))).unwrap();
+                let conn = SyslogConnection::try_udp("127.0.0.1:0".to_string(), server.local_addr().unwrap().to_string()).unwrap();
+                let header = if *hdr == "5424" { SyslogLineHeader::Rfc5424("fvhid".to_owned()) } else { SyslogLineHeader::Rfc3164 };
+                let w = SyslogWriter::builder(conn, header, facs[fac]).max_log_level(log::LevelFilter::Trace).format(crate::props::flw::raw_format).build().unwrap();
+                let level = [log::Level::Error, log::Level::Warn, log::Level::Info, log::Level::Debug, log::Level::Trace][lvl - 1];
+                let _ = LogWriter::write(&*w, &mut flexi_logger::DeferredNow::new(), &Record::builder().level(level).target("t").args(format_args!("{}", text)).build());
+                let _ = LogWriter::flush(&*w);
+                let mut buf = vec![0u8; 65536];
+                let got = match server.recv(&mut buf) { Ok(n) => String::from_utf8_lossy(&buf[..n]).to_string(), Err(_) => String::new() };
+                // <pri> … then the header fields, then the message (which may itself contain blanks)
+                let parsed = (|| -> Option<(u64, String)> {
+                    let rest = got.strip_prefix('<')?;
+                    let (p, rest) = rest.split_once('>')?;
+                    let pri: u64 = p.parse().ok()?;
+                    let m = if *hdr == "5424" {
+                        let rest = rest.strip_prefix("1 ")?;
+                        let mut it = rest.splitn(6, ' ');
+                        let (_ts, _host, _app, pid, msgid) = (it.next()?, it.next()?, it.next()?, it.next()?, it.next()?);
+                        if msgid != "fvhid" || pid.parse::<u32>().is_err() { return None; }
+                        it.next()?.strip_prefix("- ")?.to_string()
+                    } else {
+                        // `Mmm dd hh:mm:ss tag[pid]: msg`
+                        let rest = rest.get(16..)?;
+                        let (tagpid, m) = rest.split_once("]: ")?;
+                        let (_tag, pid) = tagpid.split_once('[')?;
+                        if pid.parse::<u32>().is_err() { return None; }
+                        m.to_string()
+                    };
+                    Some((pri, m))
+                })();
+                match parsed {
+                    Some((pri, m)) => {
+                        if m != text {
+                            ctx.report.fail(&case_id, "syslog-message-not-verbatim", &format!("line {li}: logged {text:?}, the syslog line {got:?} carries {m:?}"));
+                        }
+                        format!("pri={pri} msg={}", crate::util::hexs(&m))
+                    }
+                    None => {
+                        ctx.report.fail(&case_id, "syslog-line-malformed", &format!("line {li}: header {hdr}, facility {fac}, level {lvl}, message {text:?}: received {got:?}"));
+                        format!("malformed {}", crate::util::hexs(&got))
+                    }
+                }
+            }
             // C19: the reports of a run with failing operations arrive on the configured error channel.
             // Reference = the same run with an openable error file; answered in the form of the
             // rewritten line `ERRCHANOBS <channel> <reports of the reference run>`
@@ -218,6 +272,20 @@ pub fn gen_errchan(tier: &str, seed: u64) -> Vec<Vec<String>> {
         let ch = ["stderr", "stdout", "file", "badfile", "devnull"][(k % 5) as usize];
         let fault = *r.pick(&["write", "rename", "open", "write", "none"]);
         cases.push(vec![format!("CASE std C19 e{k}"), format!("ERRCHAN {ch} {fault} {}", r.range(4, 30)), "END".into()]);
+    }
+    cases
+}
+
+/// C13: lines of the syslog writer — every facility x level x both header layouts, odd messages
+pub fn gen_syslog(tier: &str, seed: u64) -> Vec<Vec<String>> {
+    let mut r = Rng::new(seed ^ 0x5951);
+    let mut cases = Vec::new();
+    for k in 0..(if tier == "thorough" { 240 } else { 48 }) {
+        let fac = k % 24;
+        let lvl = r.range(1, 5);
+        let hdr = if r.chance(1, 2) { "5424" } else { "3164" };
+        let msg = r.pick_s(&["hello", "two words", "x", "with ]: inside", "- dash first", "ünï 日本", "a=b [c] <d>", "1 2 3 4 5 6 7"]);
+        cases.push(vec![format!("CASE std C13 y{k}"), format!("SYSLOGLINE {hdr} {fac} {lvl} {}", crate::util::hexs(msg)), "END".into()]);
     }
     cases
 }
